@@ -36,6 +36,13 @@ def transforms(ego):
     return TransformDict(m)
 
 
+def ego_matrix(ego):
+    from perception_eval.common.transform import HomogeneousMatrix
+    from perception_eval.common.schema import FrameID
+    ego = ego or dict(x=0.0, y=0.0, yaw=0.0)
+    return HomogeneousMatrix((ego["x"], ego["y"], ego.get("z", 0.0)), quat_yaw(ego.get("yaw", 0.0)), src=FrameID.BASE_LINK, dst=FrameID.MAP)
+
+
 def ego_xy(d, ego):
     """ego-relative planar position of an object description (independent re-computation)"""
     if d.get("frame", "base_link") == "base_link" or ego is None:
